@@ -35,6 +35,8 @@ def val_json(v):
         return {'c': [core.q(v.real), core.q(v.imag)]}
     if isinstance(v, (bool, np.bool_)):
         raise TypeError('boolean value')
+    if isinstance(v, (float, np.floating)) and math.isinf(v) and v > 0:
+        return {'inf': True}
     return {'n': core.q(v)}
 
 def pairs_json(d: dict):
@@ -46,6 +48,7 @@ def comp_json(c):
 
 def val_back(j):
     if 's' in j: return j['s']
+    if 'inf' in j: return math.inf
     if 'c' in j: return complex(float(Fraction(j['c'][0])), float(Fraction(j['c'][1])))
     return Fraction(j['n'])
 
@@ -54,6 +57,7 @@ def comp_canon(c):
     def num(v):
         if isinstance(v, str): return v
         if isinstance(v, complex): return ('c', Fraction(v.real), Fraction(v.imag))
+        if isinstance(v, float) and math.isinf(v): return 'inf'
         return Fraction(v)
     return (c.type, c.id, tuple(c.nodes), tuple((k, num(v)) for k, v in c.value.items()))
 
@@ -61,6 +65,7 @@ def comp_json_canon(j):
     def num(v):
         b = val_back(v)
         if isinstance(b, complex): return ('c', Fraction(b.real), Fraction(b.imag))
+        if isinstance(b, float) and math.isinf(b): return 'inf'
         return b
     return (j['kind'], j['id'], tuple(j['nodes']), tuple((k, num(v)) for k, v in j['value']))
 
@@ -247,8 +252,18 @@ def random_circuit(rng, kinds, exact=True, n_nodes=None, n_extra=None, freqs=Non
 def pretty(descs):
     return [f"{d['id']}:{d['fn']}({','.join(d['nodes'])}){d['args']}" for d in descs]
 
+def is_open_switch(e) -> bool:
+    """`NortenElement(Z=inf, V=0)`: what `elm.resistor(id, inf)` builds"""
+    return type(e).__name__ == 'NortenElement' and isinstance(e.Z, (int, float)) and math.isinf(e.Z) and e.Z > 0 and e.V == 0
+
 def elem_json(e):
     cls = type(e).__name__
+    if is_open_switch(e):
+        # canonical form of the open switch: its derived values are Y = 1/inf = 0, I = 0/inf = 0 (checked here on
+        # the live object), i.e. the record (Y = 0, I = 0) — the shared element type of the model has no Z = inf
+        if not (e.Y == 0 and e.I == 0):
+            raise TypeError('open switch with non-zero derived values')
+        return dict(k='T', a=core.qc(0), b=core.qc(0))
     if cls == 'NortenElement':
         return dict(k='N', a=core.qc(e.Z), b=core.qc(e.V))
     if cls == 'TheveninElement':
@@ -262,6 +277,8 @@ def net_json(network):
 def finite_net(network) -> bool:
     for b in network.branches:
         e = b.element
+        if is_open_switch(e):
+            continue
         vals = (e.Z, e.V) if type(e).__name__ == 'NortenElement' else (e.Y, e.I)
         if not all(np.isfinite(complex(v)) for v in vals):
             return False
